@@ -13,7 +13,8 @@ namespace {
    enum Kind { KVar, KField, KBitfield, KAlias, KTypedecl, KFundecl, KPrimary, KSecondary };
    // each (name, type) pair is used by one declaration kind (the property's side condition); all eight kinds occur
    // the third name is declared as a primary template with one type and as a secondary template with another (one overload set, two kinds)
-   const Kind kind_of[3][3] = { { KVar, KFundecl, KAlias }, { KField, KTypedecl, KPrimary }, { KPrimary, KBitfield, KSecondary } };
+   // the first name is declared as a function with two types that differ in the exception specification only
+   const Kind kind_of[3][3] = { { KFundecl, KFundecl, KAlias }, { KField, KTypedecl, KVar }, { KPrimary, KBitfield, KSecondary } };
    struct World {
       impl::Lexicon lx;
       impl::Translation_unit unit { lx };
@@ -29,7 +30,7 @@ namespace {
          const ipr::Product* P[2] = { &lx.get_product(w0), &lx.get_product(w1) };
          for (int n = 0; n < 3; ++n) for (int t = 0; t < 3; ++t) {
             switch (kind_of[n][t]) {
-            case KFundecl: TY[n][t] = &lx.get_function(*P[t % 2], *T[t]); break;
+            case KFundecl: TY[n][t] = t == 0 ? &lx.get_function(*P[1], *T[1]) : &lx.get_function(*P[1], *T[1], lx.true_value()); break;
             case KPrimary: case KSecondary: TY[n][t] = &lx.get_forall(*P[1], *T[t]); break;
             default: TY[n][t] = T[t];
             }
